@@ -51,7 +51,9 @@ func (s *shardNodeReader) makeReader() (io.Reader, error) {
 		if err != nil {
 			return nil, err
 		}
-		if s.offset >= at+childSize {
+		// skip children that end before the offset; an empty child sitting
+		// exactly at the offset is still opened, like empty children further on
+		if s.offset > at+childSize || (childSize > 0 && s.offset == at+childSize) {
 			at += childSize
 			continue
 		}
